@@ -15,7 +15,7 @@ ID = 'C08'
 LEVEL = 'exploration'
 BUDGET_S = {'quick': 400, 'thorough': 1800}
 RULE = ('Hypothesis rule-based state machine inside one worker process. State: working directory (3 scratch dirs), client '
-        'instances (caching on/off), 4 named input files, a pool of 27 request contents (two sparse ones relying on the default temperature profile, two stating declared defaults explicitly, one with S-DAC-GT) (two of them the same lines with a repeated parameter in opposite order; five three-segment requests that differ only in the tail of a list-valued parameter or mix the list and the enumerated spelling of the profile) from all fast families (reservoir '
+        'instances (caching on/off), 4 named input files, a pool of 39 request contents (twelve of them one-line-apart siblings differing in one rock property under reservoir models 1, 2 and 3) (two sparse ones relying on the default temperature profile, two stating declared defaults explicitly, one with S-DAC-GT) (two of them the same lines with a repeated parameter in opposite order; five three-segment requests that differ only in the tail of a list-valued parameter or mix the list and the enumerated spelling of the profile) from all fast families (reservoir '
         'models 0-5 and SBT, every surface-plant class, add-ons, multi-segment) and 6 failing contents (out-of-range value, '
         'unknown option, missing profile file = bare sys.exit, division by zero in the linear-heat-sweep model, missing '
         'demand file, gradient glued by missing newline). Rules: run content through a new params object, run a named file, '
@@ -85,6 +85,13 @@ def contents():
                                                          ['Total District Heating Network Cost', '10'], ['District Heating O&M Cost', '1']]),
         gen.merge(gen.RES4, gen.ELEC(1), gen.ECON['1'], gen.SDAC, [['Plant Lifetime', '6'], ['Time steps per year', '2']]),
     ]
+    # one-line-apart siblings that differ in a single scalar rock / fluid property, for each analytical reservoir model: a value
+    # remembered from the previous request (memo keyed on too little) shows only between such neighbours
+    rock = [['Reservoir Heat Capacity', '1100'], ['Reservoir Density', '2700'], ['Reservoir Thermal Conductivity', '3.0']]
+    for res, plant, econ in ((gen.RES1, gen.ELEC(4), '2'), (gen.RES2, gen.HEAT, '1'), (gen.RES3, gen.ELEC(2), '1')):
+        b0 = gen.merge(res, plant, gen.ECON[econ], small, rock)
+        ok += [b0, gen.set_param(b0, 'Reservoir Heat Capacity', '800'), gen.set_param(b0, 'Reservoir Density', '3000'),
+               gen.set_param(b0, 'Reservoir Thermal Conductivity', '2.2')]
     bad = [
         gen.merge(gen.RES4, gen.ELEC(2), gen.ECON['1'], [['Gradient 1', '5000']]),
         gen.merge(gen.RES4, gen.ELEC(2), gen.ECON['1'], [['Reservoir Model', '99']]),
